@@ -131,6 +131,42 @@ def translate(tree):
     return test
 
 
+def worker_choice(tree):
+    """_to_triplets: `cal = A if TEST else B` with A, B the two workers -> for custom_distance None / 'hamming' / a callable: is the custom worker chosen?"""
+    tt = next(n for n in tree.body if isinstance(n, ast.FunctionDef) and n.name == '_to_triplets')
+    asg = [s_ for s_ in tt.body if isinstance(s_, ast.Assign) and U(s_.targets[0]) == 'cal']
+    if len(asg) != 1 or not isinstance(asg[0].value, ast.IfExp):
+        raise Refuse('_to_triplets: the worker is not chosen by one conditional expression')
+    e = asg[0].value
+    names = {U(e.body), U(e.orelse)}
+    if names != {'_cal_levenshtein', '_cal_custom_dist'}:
+        raise Refuse('_to_triplets: the two workers are not _cal_levenshtein / _cal_custom_dist')
+    CALLABLE = object()
+
+    def ev(n, v):
+        if isinstance(n, ast.BoolOp):
+            vals = [ev(x, v) for x in n.values]
+            return all(vals) if isinstance(n.op, ast.And) else any(vals)
+        if isinstance(n, ast.UnaryOp) and isinstance(n.op, ast.Not):
+            return not ev(n.operand, v)
+        if isinstance(n, ast.Call) and U(n.func) == 'callable' and [U(a_) for a_ in n.args] == ['custom_distance']:
+            return v is CALLABLE
+        if isinstance(n, ast.Compare) and len(n.ops) == 1 and U(n.left) == 'custom_distance':
+            r, op = n.comparators[0], n.ops[0]
+            if isinstance(r, (ast.Tuple, ast.List, ast.Set)) and all(isinstance(x, ast.Constant) for x in r.elts) and isinstance(op, (ast.In, ast.NotIn)):
+                inside = any((v is x.value) or (isinstance(v, str) and v == x.value) for x in r.elts)
+                return inside if isinstance(op, ast.In) else not inside
+            if isinstance(r, ast.Constant) and isinstance(op, (ast.Is, ast.IsNot, ast.Eq, ast.NotEq)):
+                same = (v is r.value) or (isinstance(v, str) and isinstance(r.value, str) and v == r.value)
+                return same if isinstance(op, (ast.Is, ast.Eq)) else not same
+        raise Refuse('_to_triplets: worker test not understood: %s' % U(n)[:80])
+    out = []
+    for v in (None, 'hamming', CALLABLE):
+        t = ev(e.test, v)
+        out.append((U(e.body) if t else U(e.orelse)) == '_cal_custom_dist')
+    return out
+
+
 def translate_lev(tree):
     """_cal_levenshtein(_args):
           i, y_indices = _args
@@ -222,6 +258,10 @@ Definition gen_cal_levenshtein (hamming levenshtein : str -> str -> nat) (seqs :
   let result := rf_extract scorer (nth i seqs []) (map (fun c_ => nth c_ seqs []) choices) max_edits limit in
   fold_left (fun ans r_ => ans ++ [(i, nth (snd r_) choices 0, snd (fst r_))]) result [].
 '''
+WORKER = '''
+(* _to_triplets: is the custom-distance worker chosen for custom_distance = None / 'hamming' / a callable? *)
+Definition gen_worker_is_custom : bool * bool * bool := (%s, %s, %s).
+'''
 SNAP = '((leD (snd x_) max_cust_dist) && (Nat.leb edit_distance_ max_edits))'
 
 
@@ -232,13 +272,14 @@ def run(STATUS, write_if_changed, ROOT, REPO):
         tree = ast.parse(open(os.path.join(REPO, 'pyrepseq', 'nn.py')).read())
         test = translate(tree)
         translate_lev(tree)
-        txt = TEMPLATE % test
+        w = worker_choice(tree)
+        txt = TEMPLATE % test + WORKER % tuple('true' if x else 'false' for x in w)
         STATUS[NAME] = dict(ok=True, properties=PROPS, error=None)
     except Refuse as e:
-        txt = '(* translator refused: %s -- committed snapshot of the last good text *)\n' % str(e).replace('*)', '* )') + TEMPLATE % SNAP
+        txt = '(* translator refused: %s -- committed snapshot of the last good text *)\n' % str(e).replace('*)', '* )') + TEMPLATE % SNAP + WORKER % ('false', 'false', 'true')
         STATUS[NAME] = dict(ok=True, snapshot=True, properties=PROPS,
                             error='regen unavailable (%s): committed snapshot used, tie by correspondence' % str(e)[:200])
     except Exception:
-        txt = '(* translator crashed -- committed snapshot *)\n' + TEMPLATE % SNAP
+        txt = '(* translator crashed -- committed snapshot *)\n' + TEMPLATE % SNAP + WORKER % ('false', 'false', 'true')
         STATUS[NAME] = dict(ok=False, properties=PROPS, error='translator crashed: ' + traceback.format_exc()[-300:])
     write_if_changed(os.path.join(ROOT, 'coq/gen/Gen_c11b.v'), '\n'.join(head) + txt)
